@@ -1,6 +1,7 @@
 import TantivyModel.Driver.Proto
 import TantivyModel.Model.Grammar.Q
 import TantivyModel.Model.Grammar.Safe
+import TantivyModel.Driver.C16Chars
 /-!
 Line protocol of the C16 model.
 
@@ -15,6 +16,7 @@ Requests:
                                       for the lenient parser; `<docs>` = valuations separated by `|`,
                                       each a `;` separated list of true `field.id` keys (`-` = none)
 * `semq <o|a> <defaults> Q <docs>`  → per document `1`/`0` of `semQ`, or `undoc`
+* `parse <hex>`                      → the character-layer strict parser, see Driver/C16Chars.lean
 * `safe <o|a> Q`                    → `1` iff `rewrite_ast` is meaning-preserving on `build q`
                                       by the side condition `safeWith` (see the comment before `C16_rewrite_preserves_sem_counterexample`)
 -/
@@ -145,6 +147,7 @@ def handle : List String → String
     match parseMode m, readQ q with
     | some m, some q => showBool (safe m (build q))
     | _, _ => "bad-op"
+  | ["parse", h] => C16Chars.handleParse h
   | _ => "bad-op"
 
 end TantivyModel.Driver.C16
